@@ -49,6 +49,7 @@ type agg struct {
 	unrecorded                                      int64
 	actExec                                         [numActs]int64
 	derExec                                         [numDerive]int64
+	ancExec                                         int64
 	handleErrFailed, handleErrSurfaced              int64
 }
 
@@ -240,7 +241,28 @@ func main() {
 			}
 		}
 	}
-	jobs = append(append(actJobs, derJobs...), jobs...)
+	// nested blocks opened from an ancestor's handle (root tx, grand-parent tx)
+	// instead of the handle their parent's callback received: every combination
+	// for the blocks at depth >= 2. quick = all trees fault-free, <=3 blocks
+	// <=1 fault; thorough = all trees <=1 fault, <=3 blocks <=2 faults.
+	ancProgs := withAncestorHandles(progs, 4)
+	var ancJobs []job
+	for ai, p := range ancProgs {
+		jb := 0
+		switch {
+		case p.size() <= 3:
+			jb = bound
+		case thorough:
+			jb = 1
+		}
+		for cfg := 0; cfg < 8; cfg++ {
+			ancJobs = append(ancJobs, job{p, len(progs) + len(actProgs) + ai, cfg, dialStock, "all", jb, false, derNone})
+			if cfg&cfgNoNested == 0 && jb > 0 {
+				ancJobs = append(ancJobs, job{p, len(progs) + len(actProgs) + ai, cfg, dialStrict, "savepoint", jb, false, derNone})
+			}
+		}
+	}
+	jobs = append(append(append(actJobs, derJobs...), ancJobs...), jobs...)
 	var deadline time.Time
 	if thorough {
 		deadline = start.Add(9 * time.Minute)
@@ -310,6 +332,9 @@ func main() {
 						}
 						if j.der != derNone {
 							atomic.AddInt64(&a.derExec[j.der], 1)
+						}
+						if j.pi >= len(progs)+len(actProgs) {
+							atomic.AddInt64(&a.ancExec, 1)
 						}
 						if o.Act != actNone {
 							atomic.AddInt64(&a.actExec[o.Act], 1)
@@ -466,6 +491,9 @@ func main() {
 				run.HarnessError("vacuous: only %d executions with statements through %s", a.derExec[der], deriveName[der])
 			}
 		}
+		if a.ancExec < 5000 {
+			run.HarnessError("vacuous: only %d executions with a block opened from an ancestor's handle", a.ancExec)
+		}
 		if a.handleErrFailed < 500 {
 			run.HarnessError("vacuous: only %d blocks failed while their own handle carried an error", a.handleErrFailed)
 		}
@@ -480,7 +508,7 @@ func main() {
 	run.Assume("dialector 'strict-savepoint' = gorm.io/driver/sqlite v1.5.6 with SavePoint/RollbackTo returning the statement's error (as the MySQL dialector does); the shipped SQLite dialector drops it, so gorm's own handling of a failed SavePoint is only reachable through the wrapper")
 	run.Assume("Transaction/Begin are called on the root *gorm.DB handle; writes are single-row Create calls, reads are Find; TxOptions and contexts with deadlines are outside the alphabet; SQLite's own SAVEPOINT stack is trusted")
 	run.Assume("RollbackTo on a name without a live save point must change nothing; whether it reports an error is not checked; the manual part runs on the shipped dialector only and injects faults at BEGIN / COMMIT / data statements (not SAVEPOINT) of the last operation of each sequence")
-	rule := fmt.Sprintf("part 1: all labelled trees of nested Transaction blocks with <=4 blocks, depth <=4 (%d labelled trees, %d after removing code that can never run), each block = write; {child; read}*; write; outcome nil/error/panic, parent propagates or swallows (recovers) each child's failure; x 8 configurations {PrepareStmt, DisableNestedTransaction, SkipDefaultTransaction}; each pair explored by the E1 explorer with every combination of <=%d injected driver faults over all BEGIN, COMMIT, SAVEPOINT, prepare/exec/query calls (shipped dialector) and additionally with the strict-savepoint dialector (quick: SAVEPOINT faults only); in addition programs in which one block performs an extra action on its own handle after its second write (tx.AddError(marker) | a statement failing on a duplicate key | tx.SavePoint(m); write; tx.RollbackTo(m) | tx.RollbackTo(unknown name)), both dialectors, trees of <=%d blocks (fault bound shrinking with tree size, see executions_with_block_action); and programs in which every block issues its statements through a handle derived from its tx (%v); oracle in lock-step: snapshot-stack model, errors.Is/identical panic value at every Transaction call, reads inside blocks, final table, leaks, follow-up write. distinct_nontrivial = distinct (program, configuration, reference trace) with at least one failing or fault-blocked block. part 2: BFS over Begin + sequences of <=%d operations from %v per configuration (shipped dialector) with the writes going through tx itself, and with two operations less through each derived handle, de-duplicated on the canonical implementation state (table inside the transaction + error stored on the handle + recursively probed save point stack), compared with the reference state at every transition; every transition is repeated with a fault at each BEGIN / COMMIT / data-statement driver call of its last operation, followed by a usability probe (write; Commit)", raw, nProg, bound, actBlocks, deriveName[1:], manualDepth, opName)
+	rule := fmt.Sprintf("part 1: all labelled trees of nested Transaction blocks with <=4 blocks, depth <=4 (%d labelled trees, %d after removing code that can never run), each block = write; {child; read}*; write; outcome nil/error/panic, parent propagates or swallows (recovers) each child's failure; x 8 configurations {PrepareStmt, DisableNestedTransaction, SkipDefaultTransaction}; each pair explored by the E1 explorer with every combination of <=%d injected driver faults over all BEGIN, COMMIT, SAVEPOINT, prepare/exec/query calls (shipped dialector) and additionally with the strict-savepoint dialector (quick: SAVEPOINT faults only); in addition programs in which one block performs an extra action on its own handle after its second write (tx.AddError(marker) | a statement failing on a duplicate key | tx.SavePoint(m); write; tx.RollbackTo(m) | tx.RollbackTo(unknown name)), both dialectors, trees of <=%d blocks (fault bound shrinking with tree size, see executions_with_block_action); and programs in which every block issues its statements through a handle derived from its tx (%v); and every variant of the trees in which blocks at depth >=2 are opened from an ancestor's tx handle (still in scope) instead of their parent's; oracle in lock-step: snapshot-stack model, errors.Is/identical panic value at every Transaction call, reads inside blocks, final table, leaks, follow-up write. distinct_nontrivial = distinct (program, configuration, reference trace) with at least one failing or fault-blocked block. part 2: BFS over Begin + sequences of <=%d operations from %v per configuration (shipped dialector) with the writes going through tx itself, and with two operations less through each derived handle, de-duplicated on the canonical implementation state (table inside the transaction + error stored on the handle + recursively probed save point stack), compared with the reference state at every transition; every transition is repeated with a fault at each BEGIN / COMMIT / data-statement driver call of its last operation, followed by a usability probe (write; Commit)", raw, nProg, bound, actBlocks, deriveName[1:], manualDepth, opName)
 	cov := map[string]interface{}{
 		"evaluations":         a.executions + int64(mTrans) + int64(mFaulted),
 		"distinct_nontrivial": distinct.Len(),
@@ -506,6 +534,8 @@ func main() {
 		"nv_programs_partial_rollback_nested_off": partialOff,
 		"nv_executions_partial_rollback":          a.partialExec,
 		"executions_with_derived_handle": derMap(a.derExec[:]),
+		"programs_with_block_opened_from_ancestor_handle":   len(ancProgs),
+		"executions_with_block_opened_from_ancestor_handle": a.ancExec,
 		"programs_with_block_action":    len(actProgs),
 		"executions_with_block_action":  map[string]int64{actName[1]: a.actExec[1], actName[2]: a.actExec[2], actName[3]: a.actExec[3], actName[4]: a.actExec[4]},
 		"nv_blocks_failed_with_error_on_own_handle": a.handleErrFailed,
